@@ -1,4 +1,5 @@
 import ShroudVerif.Model.Scope
+import ShroudVerif.Model.ScopeExt
 import Driver.Codec
 /-!
 Line protocol for the scope engine (C14).
@@ -7,6 +8,9 @@ Line protocol for the scope engine (C14).
 `tr  <keys> <top> item*`  option scopes of a declaration tree
 `at  tok*`                `Parser.attribute` on a token list
 `cl  <yopts> <ylang> <lang> opt*`   `--option` / `--language` merge
+`fa  <params> <fattrs> <attrs kw> <fattrs kw> generic*`   `FunctionNode.__init__` attrs merge
+`lo  <defaults> <kLit> <kLit2> <yopts> <ylang> <lang> opt*`   the library's option scope
+`sp  <files> <name> path*`   splicer file along the search path
 -/
 namespace Driver
 open Shroud.Scope
@@ -187,6 +191,75 @@ def handleCl : List String → String
         | .absent => "A" | .null => "Z" | .dict d => "D" ++ encCDict d) ++ " " ++ encOptStr l
     | .valueError => "crash ValueError"
     | .attributeError => "crash AttributeError"
+  | _ => "bad-op"
+
+/-! ### `fa`: FunctionNode attrs merge.  Names and types are numbers interned by the harness. -/
+
+def decAVal (s : String) : AVal :=
+  if s == "T" then .tru else if s == "N" then .none
+  else if s.startsWith "s:" then .str (decStr (s.drop 2).toString)
+  else if s.startsWith "i:" then .int (decStr (s.drop 2).toString)
+  else .flt (decStr (s.drop 2).toString)
+
+/-- `k=v;k=v` or `~` -/
+def decADict (s : String) : List (Nat × AVal) :=
+  if s == "~" then [] else
+    (s.splitOn ";").map (fun kv => match kv.splitOn "=" with
+      | [k, v] => (k.toNat!, decAVal v)
+      | _ => (0, .none))
+
+def encADict (d : List (Nat × AVal)) : String :=
+  if d.isEmpty then "~" else ";".intercalate (d.map (fun kv => toString kv.1 ++ "=" ++ encAVal kv.2))
+
+/-- `name/ty/dict` -/
+def decParam (s : String) : Param :=
+  match s.splitOn "/" with
+  | [n, t, d] => ⟨n.toNat!, t.toNat!, decADict d⟩
+  | _ => ⟨0, 0, []⟩
+
+def encParam (p : Param) : String := toString p.name ++ "/" ++ toString p.ty ++ "/" ++ encADict p.attrs
+
+def decParams (s : String) : List Param := if s == "-" then [] else (s.splitOn "|").map decParam
+def encParams (ps : List Param) : String := if ps.isEmpty then "-" else "|".intercalate (ps.map encParam)
+
+/-- `N` | `E` | `name>dict|name>X` -/
+def decAttrsKw (s : String) : Option (Dict YAttr) :=
+  if s == "N" then none else if s == "E" then some [] else
+    some ((s.splitOn "|").map (fun e => match e.splitOn ">" with
+      | [n, d] => (n.toNat!, if d == "X" then YAttr.other else YAttr.dict (decADict d))
+      | _ => (0, YAttr.other)))
+
+def handleFa : List String → String
+  | ps :: fa :: akw :: fkw :: gens =>
+    match fnInit { params := decParams ps, fattrs := decADict fa, attrsKw := decAttrsKw akw,
+                   fattrsKw := if fkw == "N" then none else some (decADict fkw),
+                   generics := gens.map decParams } with
+    | .ok o => " ".intercalate (["ok", encParams o.params, encADict o.fattrs] ++ o.generics.map encParams)
+    | .notDict n => "notdict " ++ toString n
+  | _ => "bad-op"
+
+/-! ### `lo`: the library's option scope -/
+
+def handleLo : List String → String
+  | dflt :: kl :: kl2 :: yo :: yl :: lang :: opts =>
+    let defaults := match decYOpts dflt with | .dict d => d | _ => []
+    match mergeCli internName (decYOpts yo) (decOptStr yl) (opts.map decStr) (decOptStr lang) with
+    | .ok y _ => "ok " ++ encCDict (libOptions defaults (internName (decStr kl)) (internName (decStr kl2)) y)
+    | .valueError => "crash ValueError"
+    | .attributeError => "crash AttributeError"
+  | _ => "bad-op"
+
+/-! ### `sp`: search path over a finite set of existing files -/
+
+def decPath (s : String) : List Nat := (decStr s).map Char.toNat
+def encPath (p : List Nat) : String := encStr (p.map Char.ofNat)
+
+def handleSp : List String → String
+  | files :: name :: paths =>
+    let fs := (decStrs files).map (fun f => f.map Char.toNat)
+    match splicerFile (fun f => fs.contains f) (paths.map decPath) (decPath name) with
+    | some f => "some " ++ encPath f
+    | none => "none"
   | _ => "bad-op"
 
 end Driver
